@@ -76,6 +76,36 @@ CHECKS = {
         technique="icontract postconditions and snapshot-based purity conditions attached to every Parameter.clean from the harness (recording, evaluation-counted), exception-class monitor, repeat/idempotence monitors; matrix workload plus live contracts during whole-model runs",
         text="Every parameter class and configuration is driven with ~130 raw values of every kind the parser or API delivers, with and without a working directory: the cleaned value must have the documented type, only ProgramError may be raised, a second clean and a clean of the cleaned value must give equal results, and deep snapshots of the raw value and of the program must be unchanged. The same contracts stay attached while random models are loaded and run (through from_source and through add_command), where the recorder pairs the pipeline's two cleanings of each argument.",
         note="Trusted: icontract, the harness's statement of documented types. Don't-care list in the evidence assumptions."),
+    "C02": dict(
+        level="exploration", design="5/C02",
+        technique="postcondition evaluated at every execute() exit inside running models (independent reference model applied to the inputs the command actually received; reads compared with the written table) + metamorphic monitors over command permutations, metadata and extra-consumer variants",
+        text="Random well-typed EEMS models over all built-in data commands are loaded from source and run with a per-node postcondition; every model is re-run reversed, under random permutations, with Metadata attached and with extra Copy/PrintVars consumers, and every shared result must be bit-identical. A coverage ledger makes the run inconclusive if any built-in data command never had its postcondition evaluated.",
+        note="Trusted: reference models, recorder. Nodes whose reference is undefined (constant arrays, zero spread, equal thresholds) are don't-care; their consumers are still judged on what they received."),
+    "C15": dict(
+        level="exploration", design="5/C15",
+        technique="round-trip monitor: structural comparison (cleaned values, references by name, floats bit-exact, metadata) of P and from_source(P.to_string()), result comparison after running both, second-generation structural fixpoint",
+        text="Programs over a harness command with one parameter of every kind (strings with quotes, backslashes, delimiters, '#', non-ASCII, edge blanks, control characters; huge ints, exponent-form floats, -0.0; booleans; lists, nested lists; references by name and by Command object; tuples; metadata), built from source and through add_command, and random EEMS models, must survive serialise -> load with the same structure and the same results.",
+        note="Not judged: text layout, key order of tuples/metadata, type objects and NaN/inf as values."),
+    "C16": dict(
+        level="exploration", design="5/C16",
+        technique="existence monitor over the 25 EEMS 2.0 names + differential monitor: 2.0 text vs the harness's own translation, both loaded and run (outcome class, program structure, results)",
+        text="Every 2.0 name must resolve to an existing command in the CSV or NetCDF set (all 25 x 8 naming/argument forms), and random EEMS models written in 2.0 syntax (bare and 'Result =' forms, NewFieldName / InFieldName naming, OutFileName present or not, mixed with MPilot-style commands, all layouts) must load to the same program and compute the same results as the harness's translation. Two known findings (SCORERANGEBENEFIT / SCORERANGECOST).",
+        note="The harness's name table restates the mapping by meaning. Don't-care: 2.0 commands without any usable name, OutFileName on MPilot-style commands inside a 2.0 file."),
+    "C17": dict(
+        level="exploration", design="5/C17",
+        technique="reference comparison of EEMSRead results with harness-written tables (bit-exact), other-column independence monitor, error-line monitor, written-file monitor parsed with the csv module, read-after-write monitor",
+        text="Tables with hostile doubles (subnormals, extremes, -0.0, values one ulp from the missing value), int64, headers needing CSV quoting, blank lines, LF/CRLF and every missing-value situation are written by the harness and read through the real command; written files are parsed independently; written-then-read arrays must be bit-identical.",
+        note="Don't-care: text of missing cells in written files, fractional cells read as Integer, NaN/inf, ragged rows."),
+    "C18": dict(
+        level="exploration", design="5/C18",
+        technique="reference comparison of NetCDF EEMSRead results with variables written directly through netCDF4 for every DataType x MissingValue combination; write-then-read monitor (shape, kind, values, union mask) and template-copy monitor",
+        text="Variables of f8/f4/i8/i4/i2 with and without _FillValue are read under every DataType x MissingValue combination and compared with what the file holds (element kind, values, mask = fill cells + cells equal to the missing value, positive / fuzzy checks); 1-4 results with any mix of dtypes and mask kinds are written together and read back (mask must be the union), and the template's dimension variables, coordinate values and attributes must be copied unchanged.",
+        note="Trusted: netCDF4. Not judged: ties when rounding to integer, the width of the fuzzy tolerance band, compression settings."),
+    "C19": dict(
+        level="exploration", design="5/C19",
+        technique="differential history monitor: Program.command_library (name -> module, probe behaviour) after a random in-process history vs the same probe in a clean process; one fresh subprocess per history",
+        text="For probes over prefix-related user libraries, packages and the built-in sets, random histories of earlier Program constructions, imports, Command subclass definitions (in __main__, named like built-ins, under prefix-related module names) and model runs must not change what the probe sees; libraries sharing a command name must fail at construction and disjoint ones must not.",
+        note="Class object identity is not compared. ~0.35 s per process bounds the number of histories."),
 }
 
 PENDING = {}
